@@ -55,7 +55,8 @@ def inline(rng, depth=0):
     if c == "sup": return "x^%s^" % word(rng)
     if c == "sub": return "H~2~O"
     if c == "critic": return rng.choice(["{++%s++}", "{--%s--}", "{~~%s~>new~~}", "{>>%s<<}", "{==%s==}"]) % t
-    if c == "auto": return rng.choice(["<http://example.com/a?b=1&c=2>", "<user@example.com>"])
+    if c == "auto": return rng.choice(["<http://example.com/a?b=1&c=2>", "<user@example.com>", "<info@b\u00fccher.example>", "<mailto:j\u00f6rg@example.com>",
+                                       "<http://example.com/\u00fc?x=\u65e5>"])
     if c == "raw": return rng.choice(["<b>%s</b>" % t, "`\\textbf{x}`{=latex}", "&amp; &#169; &copy;", rng.choice(ENTITY_FORMS) + " " + rng.choice(ENTITY_FORMS)])
     if c == "abbr": return "ABBR"
     if c == "var": return "[%title]"
